@@ -97,10 +97,10 @@ def set_search_config(chop, maxlen):
 class World:
     """Content codes, tables and the stub functions of one history."""
 
-    def __init__(self, salt: int, consistent: bool, exceptions: bool = False):
+    def __init__(self, salt: int, consistent: bool, exceptions: bool = False, eager: bool = False):
         import pynguin.ga.computations as ff
 
-        self.salt, self.cons, self.exceptions = salt, consistent, exceptions
+        self.salt, self.cons, self.exceptions, self.eager = salt, consistent, exceptions, eager
         self.codes: dict[str, int] = {}
         self.executions = 0
         self.operator_errors: list[str] = []
@@ -115,6 +115,11 @@ class World:
                 return Res(code, world.exc_pos(code, test_case.size()))
 
             def execute_multiple(self, test_cases):
+                if world.eager:        # like SubprocessTestCaseExecutor: consume the input, return all results
+                    return [self.execute(t) for t in list(test_cases)]
+                return self._lazy(test_cases)
+
+            def _lazy(self, test_cases):   # like TestCaseExecutor: a generator
                 for t in test_cases:
                     yield self.execute(t)
 
@@ -430,6 +435,12 @@ def new_suite(world, E):
     return TestSuiteChromosome(f)
 
 
+def aliased(s, t):
+    """("aliased",) if the chromosome object t occurs more than once in the suite: an operation on it
+    changes several positions at once, the model then takes the observed Edit."""
+    return ("aliased",) if sum(1 for x in s.test_case_chromosomes if x is t) > 1 else ()
+
+
 def apply_suite_op(world, s, op, E):
     from pynguin.ga.operators.crossover import SinglePointRelativeCrossOver
     from pynguin.ga.testcasechromosome import TestCaseChromosome
@@ -464,7 +475,7 @@ def apply_suite_op(world, s, op, E):
             if op[3]:
                 s.changed = True
             o = obs_tc(world, t)
-            return s, ("OUnit",), ("Member", i, ("Edit", o["content"], o["last"], o["changed"]), bool(op[3]))
+            return s, ("OUnit",), ("Member", i, ("Edit", o["content"], o["last"], o["changed"]), bool(op[3])) + aliased(s, t)
         if top[0] in ("Clone", "ClonePoke", "Mutate", "CrossOver", "XOverOp", "DropResult"):
             raise ValueError(top)
         if len(top) > 1 and isinstance(top[1], (list, tuple)):       # ["reg", k]: k-th registered function
@@ -474,9 +485,15 @@ def apply_suite_op(world, s, op, E):
             top = (top[0], reg[top[1][1] % len(reg)].fid)
         t2, out, mop = apply_tc_op(world, t, top, E)
         assert t2 is t
-        return s, out, ("Member", i, mop, False)
+        return s, out, ("Member", i, mop, False) + aliased(s, t)
     # operators on the suite structure: abstracted to the observed Edit
-    if name == "Add":
+    if name == "AddAlias":               # the same chromosome OBJECT a second time
+        if s.size():
+            s.add_test_case_chromosome(s.test_case_chromosomes[op[1] % s.size()])
+    elif name == "AddTwice":
+        t = TestCaseChromosome(mk_tc(op[1]), E["factory"])
+        s.add_test_case_chromosomes([t, t])
+    elif name == "Add":
         s.add_test_case_chromosome(TestCaseChromosome(mk_tc(op[1]), E["factory"]))
     elif name == "AddMany":
         s.add_test_case_chromosomes([TestCaseChromosome(mk_tc(n), E["factory"]) for n in op[1]])
@@ -528,13 +545,13 @@ def scratch_suite(world, s, op, E):
     return out
 
 
-def run_suite_history(seed, salt, cons, ops, scratch, exc=False, chop=None, maxlen=None):
+def run_suite_history(seed, salt, cons, ops, scratch, exc=False, chop=None, maxlen=None, eager=False):
     from pynguin.utils import randomness
 
     E = env(scratch)
     set_search_config(chop, maxlen)
     randomness.RNG.seed(seed)
-    world = World(salt, cons, exc)
+    world = World(salt, cons, exc, eager)
     world.code(mk_tc(0))
     s = new_suite(world, E)
     steps = []
